@@ -91,7 +91,9 @@ func c03KeygenReused(c *Ctx, s *c03Set) {
 	}
 	cases := []evkCase{{"plain", nil}, {"compressed", []rlwe.EvaluationKeyParameters{{Compressed: true}}}}
 	galEl := params.GaloisElement(1)
-	noiseMax := math.Log2(s.Be) + 1 // log2 of a std; the error's inf-norm bound is far above its std
+	// log2 of a std as estimated by the library (it folds the decomposition digits together, observed up to
+	// log2(Be)+1.02 on the unchanged tree); junk left in a reused receiver shows up at ≈ log2(q) ≥ 25
+	noiseMax := math.Log2(s.Be) + 4
 	for _, ec := range cases {
 		for _, what := range []string{"rlk", "gk", "evk"} {
 			var recvEvk *rlwe.EvaluationKey
